@@ -65,9 +65,11 @@ def is_tokio_mpsc_sender_method(f, fn, chan=None):
 
 
 def chan_of(ty):
-    if ty.k == "adt" and ty.defn == "ControlSignal":
+    import anchors
+    nm = anchors.names(ty.f)
+    if ty.k == "adt" and ty.defn == nm.control:
         return "ctrl"
-    if ty.k == "adt" and ty.defn == "MailboxMessage":
+    if ty.k == "adt" and ty.defn == nm.mailbox:
         return "mailbox"
     return "other"
 
